@@ -581,7 +581,7 @@ def _run(ctx):
                                    big=ctx.tier != "quick")
         z, owner = gen.build_numpy(pb, spec)
         backing = "numpy"
-        if tape.chance(1, 6, f"w{i}.dask"):
+        if tape.chance(1, 4, f"w{i}.dask"):
             chunks = gen.gen_chunks(tape, z.shape, label=f"w{i}.chunks")
             z = type(z).like(z, da.from_array(np.asarray(z.data), chunks=chunks))
             backing = "dask"
@@ -630,6 +630,10 @@ def _run(ctx):
         info = ops.Info(z)
         names = [n for n, o in allops.items() if o.applies(info)]
         weights = [C_WEIGHTS.get(n, 1) for n in names]
+        if isinstance(z.data, da.Array):
+            # a lazy object on the heap: computing it is what may touch the buffers behind it
+            weights = [w * 5 if n in ("compute_sim", "compute_sync") else w
+                       for n, w in zip(names, weights)]
         opname = names[tape.weighted(weights, f"s{s}.op")]
         op = allops[opname]
         desc = op.gen(tape, info)
